@@ -81,22 +81,15 @@
 (* One action per request / response step.  Environment: Ans* (the scripted    *)
 (* server answers an open request with a class), Auth, Ev (end of a POST       *)
 (* response stream), SaEv, DelTimeout; application: Connect, CancelConnect,    *)
-(* Call, Notify, Close; SDK-internal: ConnInit (Client.Connect after the       *)
-(* initialize call), Reader / ReaderFail / ReaderEOF (jsonrpc2 read loop over  *)
+(* Call, Notify, Close; SDK-internal: ConnInit / ConnSA (Client.Connect after the *)
+(* initialize call / after the standalone GET), Reader / ReaderFail / ReaderEOF (jsonrpc2 read loop over  *)
 (* streamableClientConn.Read), TClose (the idle+shutting-down tail of          *)
 (* updateInFlight calling streamableClientConn.Close), Done.                   *)
 EXTENDS Integers, Sequences, FiniteSets, TLC
 
-CONSTANTS NC,          \* application calls c1..cNC
-          SASet,       \* configurations explored: SA = the standalone stream is enabled (DisableStandaloneSSE = FALSE)
-          OAuthSet,    \*                          OAuth = an OAuthHandler is configured
-          DelSet,      \*                          DelCls = how the server answers the DELETE: "ok" | "405" | "404" | "neterr" | "timeout"
-          PostSet,     \* answer classes used for POSTs
-          GetSet,      \* answer classes used for the initial GET
-          InitH,       \* session-id headers used on answers to initialize: subset of {"", "A"}
-          HSet,        \* session-id headers used on other 2xx answers: subset of {"", "A", "B"}
-          MaxNotify, MaxSaEv, MaxAuth, MaxClose,
-          AllowCancel, \* CancelConnect is generated
+CONSTANTS NC,          \* application calls c1..cNC (upper bound over all profiles)
+          Profiles,    \* the configurations explored: records
+                       \*   [name, nc, sa, oauth, del, post, get, inith, hset, notify, saev, auth, close, cancel]
           FixCancel, FixStream   \* the idealised design instead of D5 / D6
 
 CallTag(k) == IF k = 1 THEN "c1" ELSE IF k = 2 THEN "c2" ELSE "c3"
@@ -113,9 +106,9 @@ RejClass(c) == c \in {"rpcerr", "rpc404", "5xx", "neterr"}
 Results == {"ok", "eos", "rej", "gone", "fatal", "closed", "eof"}
 
 VARIABLES
-  SA, OAuth, DelCls,   \* the configuration of this behaviour (chosen initially, never changed)
+  P,         \* the configuration (profile) of this behaviour, chosen initially, never changed
   conn,      \* Client.Connect as the application sees it: "none" | "running" | "ok" | "err"
-  cph,       \* where Client.Connect is: "-" | "init" | "sa" | "inited" | "closing" | "done"
+  cph,       \* where Client.Connect is: "-" | "init" | "sa" | "sa2" | "inited" | "closing" | "done"
   connres,   \* class of Connect's error
   cancelled, \* Connect's context has been cancelled
   sid, pv,   \* streamableClientConn.sessionID ("" none) / initializedResult known
@@ -139,9 +132,22 @@ VARIABLES
   late,      \* ghost: a NEW message / GET / DELETE was sent after Close returned or after the session was reported missing
   fatalSeen  \* ghost: the environment has given a terminal answer (or the application closed / cancelled)
 
-vars == <<SA, OAuth, DelCls, conn, cph, connres, cancelled, sid, pv, fail, rq, reg, ret, stream, inbox, nt, sa, ping, nsaev, sanotes,
+vars == <<P, conn, cph, connres, cancelled, sid, pv, fail, rq, reg, ret, stream, inbox, nt, sa, ping, nsaev, sanotes,
           closing, rerr, werr, reading, nnotif, incoming, tc, jdone, closeIss, closeRet, closeErr, nauth,
           issued, ndel, goneAt, late, fatalSeen>>
+
+SA == P.sa                  \* the standalone stream is enabled (DisableStandaloneSSE = FALSE)
+OAuth == P.oauth            \* an OAuthHandler is configured
+DelCls == P.del             \* how the server answers the DELETE: "ok" | "405" | "404" | "neterr" | "timeout"
+PostSet == P.post           \* answer classes the scripted server uses for POSTs
+GetSet == P.get             \* ... for the initial GET
+InitH == P.inith            \* session-id headers it puts on answers to initialize: subset of {"", "A"}
+HSet == P.hset              \* ... on other 2xx answers: subset of {"", "A", "B"}
+MaxNotify == P.notify
+MaxSaEv == P.saev
+MaxAuth == P.auth
+MaxClose == P.close
+AllowCancel == P.cancel     \* CancelConnect is generated
 
 \* the whole state as a record, so that the compound effect of one step can be composed from functions
 S == [conn |-> conn, cph |-> cph, connres |-> connres, cancelled |-> cancelled, sid |-> sid, pv |-> pv, fail |-> fail,
@@ -151,7 +157,7 @@ S == [conn |-> conn, cph |-> cph, connres |-> connres, cancelled |-> cancelled, 
       closeErr |-> closeErr, nauth |-> nauth, issued |-> issued, ndel |-> ndel, goneAt |-> goneAt, late |-> late,
       fatalSeen |-> fatalSeen]
 Set(R) ==
-  /\ UNCHANGED <<SA, OAuth, DelCls>>
+  /\ UNCHANGED P
   /\ conn' = R.conn /\ cph' = R.cph /\ connres' = R.connres /\ cancelled' = R.cancelled /\ sid' = R.sid /\ pv' = R.pv
   /\ fail' = R.fail /\ rq' = R.rq /\ reg' = R.reg /\ ret' = R.ret /\ stream' = R.stream /\ inbox' = R.inbox /\ nt' = R.nt
   /\ sa' = R.sa /\ ping' = R.ping /\ nsaev' = R.nsaev /\ sanotes' = R.sanotes /\ closing' = R.closing /\ rerr' = R.rerr
@@ -161,7 +167,7 @@ Set(R) ==
 
 NoReq == [st |-> "none", att |-> 0, hsid |-> "", hpv |-> FALSE]
 Init ==
-  /\ SA \in SASet /\ OAuth \in OAuthSet /\ DelCls \in DelSet
+  /\ P \in Profiles
   /\ conn = "none" /\ cph = "-" /\ connres = "" /\ cancelled = FALSE /\ sid = "" /\ pv = FALSE /\ fail = ""
   /\ rq = [t \in Tags |-> NoReq] /\ reg = {} /\ ret = [t \in CallTags |-> ""] /\ stream = [t \in CallTags |-> "none"]
   /\ inbox = <<>> /\ nt = "new" /\ sa = (IF SA THEN "none" ELSE "off") /\ ping = "none" /\ nsaev = 0 /\ sanotes = 0
@@ -239,7 +245,7 @@ CancelConnect ==
 
 Call(k) ==
   LET t == CallTag(k) IN
-  /\ k \in 1..NC /\ conn = "ok" /\ rq[t].att = 0 /\ ret[t] = ""
+  /\ k \in 1..P.nc /\ conn = "ok" /\ rq[t].att = 0 /\ ret[t] = ""
   /\ \A j \in 1..(k - 1) : rq[CallTag(j)].att > 0 \/ ret[CallTag(j)] # ""      \* symmetry: calls are issued in order
   /\ IF Shutting(S) THEN Set([S EXCEPT !.ret[t] = "closed"])
      ELSE Set(StartWrite([S EXCEPT !.reg = @ \cup {t}], t))
@@ -303,7 +309,7 @@ AnsGet(cls) ==
                  [] cls = "503sse" -> Fail([R0 EXCEPT !.sa = "refused"], "rej")              \* D3
                  [] cls = "neterr" -> Fail([R0 EXCEPT !.sa = "refused"], "fatal")
                  [] OTHER -> [R0 EXCEPT !.sa = "refused"]
-     IN Set(StartInited(R1))
+     IN Set([R1 EXCEPT !.cph = "sa2"])        \* Client.Connect goes on in ConnSA (the read loop may notice a failure first)
 
 SaEv(kind) ==
   /\ sa = "open" /\ nsaev < MaxSaEv /\ kind \in {"note", "ping"} /\ (kind = "ping" => ping = "none")
@@ -324,32 +330,42 @@ DelTimeout ==
 (* SDK-internal steps                                                         *)
 
 \* Client.Connect once the initialize call has returned
+ConnInitG == cph = "init" /\ Back(S, "init")
 ConnInit ==
-  /\ cph = "init" /\ Back(S, "init")
+  /\ ConnInitG
   /\ IF ret["init"] # "ok"
      THEN Set(ConnFail(S, ret["init"]))
      ELSE LET R1 == [S EXCEPT !.pv = TRUE] IN                                                \* sessionUpdated
           IF SA THEN Set(Send([R1 EXCEPT !.cph = "sa", !.sa = "wait"], "get", TRUE))         \* connectStandaloneSSE, synchronous
           ELSE Set(StartInited(R1))
 
+\* Client.Connect once connectStandaloneSSE has returned: the initialized notification
+ConnSAG == cph = "sa2"
+ConnSA ==
+  /\ ConnSAG
+  /\ Set(StartInited(S))
+
 \* jsonrpc2.readIncoming over streamableClientConn.Read
+ReaderG == reading /\ fail = "" /\ inbox # <<>>
 Reader ==
-  /\ reading /\ fail = "" /\ inbox # <<>>
+  /\ ReaderG
   /\ LET m == Head(inbox) R0 == [S EXCEPT !.inbox = Tail(@)] IN
      CASE m.k \in CallTags ->
             IF m.k \in reg THEN Set([R0 EXCEPT !.reg = @ \ {m.k}, !.ret[m.k] = m.v]) ELSE Set(R0)
-       [] m.k = "note" -> Set([R0 EXCEPT !.sanotes = @ + 1])
+       [] m.k = "note" -> IF Shutting(R0) THEN Set(R0) ELSE Set([R0 EXCEPT !.sanotes = @ + 1])   \* not enqueued while shutting down
        [] m.k = "ping" ->     \* acceptRequest, the handler, then the response: refused only by a broken Writer
             IF R0.werr THEN Set([R0 EXCEPT !.ping = "done"])
             ELSE Set(StartWrite([R0 EXCEPT !.ping = "posting", !.incoming = @ + 1], "r1"))
 
+ReaderFailG == reading /\ fail # ""
 ReaderFail ==
-  /\ reading /\ fail # ""
+  /\ ReaderFailG
   /\ Set([S EXCEPT !.reading = FALSE, !.rerr = fail, !.reg = {}, !.goneAt = @ \/ (fail = "gone" /\ tc = "open"),
                    !.ret = [t \in CallTags |-> IF t \in reg THEN fail ELSE ret[t]]])
 
+ReaderEOFG == reading /\ fail = "" /\ tc = "closed"
 ReaderEOF ==
-  /\ reading /\ fail = "" /\ tc = "closed"
+  /\ ReaderEOFG
   /\ Set([S EXCEPT !.reading = FALSE, !.rerr = "eof", !.reg = {},
                    !.ret = [t \in CallTags |-> IF t \in reg THEN "eof" ELSE ret[t]]])
 
@@ -373,36 +389,55 @@ Done ==
 Urgent == NeedTClose(S) \/ NeedDone(S)
 Locked == tc = "deleting"
 
-Internal == ConnInit \/ Reader \/ ReaderFail \/ ReaderEOF \/ TClose \/ Done
-Env == \/ Connect \/ CancelConnect \/ Notify \/ Close
-       \/ \E k \in 1..NC : Call(k)
-       \/ \E t \in PostTags, c \in PostClasses, h \in {"", "A", "B"} : AnsPost(t, c, h)
-       \/ \E t \in PostTags, o \in {"ok", "fail"} : Auth(t, o)
-       \/ \E t \in CallTags, w \in {"resp", "eof"} : Ev(t, w)
-       \/ \E c \in GetClasses : AnsGet(c)
-       \/ \E k \in {"note", "ping"} : SaEv(k)
-Next == \/ DelTimeout
-        \/ ~Locked /\ (TClose \/ Done)
-        \/ ~Locked /\ ~Urgent /\ (ConnInit \/ Reader \/ ReaderFail \/ ReaderEOF \/ Env)
+\* the schedulable steps, each under its own name (TLC reports coverage and labels edges by these names)
+Free == ~Locked /\ ~Urgent
+TCloseN == ~Locked /\ TClose
+DoneN == ~Locked /\ Done
+ConnInitN == Free /\ ConnInit
+ConnSAN == Free /\ ConnSA
+ReaderN == Free /\ Reader
+ReaderFailN == Free /\ ReaderFail
+ReaderEOFN == Free /\ ReaderEOF
+ConnectN == Free /\ Connect
+CancelConnectN == Free /\ CancelConnect
+NotifyN == Free /\ Notify
+CloseN == Free /\ Close
+CallN(k) == Free /\ Call(k)
+AnsPostN(t, c, h) == Free /\ AnsPost(t, c, h)
+AuthN(t, o) == Free /\ Auth(t, o)
+EvN(t, w) == Free /\ Ev(t, w)
+AnsGetN(c) == Free /\ AnsGet(c)
+SaEvN(k) == Free /\ SaEv(k)
+
+SDKNext == TCloseN \/ DoneN \/ ConnInitN \/ ConnSAN \/ ReaderN \/ ReaderFailN \/ ReaderEOFN
+EnvNext == \/ DelTimeout \/ ConnectN \/ CancelConnectN \/ NotifyN \/ CloseN
+           \/ \E k \in 1..NC : CallN(k)
+           \/ \E t \in PostTags, c \in PostClasses, h \in {"", "A", "B"} : AnsPostN(t, c, h)
+           \/ \E t \in PostTags, o \in {"ok", "fail"} : AuthN(t, o)
+           \/ \E t \in CallTags, w \in {"resp", "eof"} : EvN(t, w)
+           \/ \E c \in GetClasses : AnsGetN(c)
+           \/ \E k \in {"note", "ping"} : SaEvN(k)
+Next == SDKNext \/ EnvNext
 Spec == Init /\ [][Next]_vars
 
-Settled == ~ENABLED (ConnInit \/ Reader \/ ReaderFail \/ ReaderEOF \/ TClose \/ Done)
+\* no SDK-internal step is enabled (the guards of the internal actions)
+Settled == ~(ConnInitG \/ ConnSAG \/ ReaderG \/ ReaderFailG \/ ReaderEOFG \/ NeedTClose(S) \/ NeedDone(S))
 
 \* fairness: the SDK's own steps; the server answers every request (with some class of the configuration), ends
 \* every response stream and lets the DELETE time out; authorizations return
-ServerAnswers == \/ \E t \in PostTags, c \in PostClasses, h \in {"", "A", "B"} : AnsPost(t, c, h)
-                 \/ \E c \in GetClasses : AnsGet(c)
-                 \/ \E t \in PostTags, o \in {"ok", "fail"} : Auth(t, o)
-                 \/ \E t \in CallTags, w \in {"resp", "eof"} : Ev(t, w)
-                 \/ DelTimeout
-FairSpec == Spec /\ WF_vars(~Locked /\ (TClose \/ Done))
-                 /\ WF_vars(~Locked /\ ~Urgent /\ (ConnInit \/ Reader \/ ReaderFail \/ ReaderEOF))
-                 /\ WF_vars(DelTimeout \/ (~Locked /\ ~Urgent /\ ServerAnswers))
+ServerAnswers == \/ DelTimeout
+                 \/ \E t \in PostTags, c \in PostClasses, h \in {"", "A", "B"} : AnsPostN(t, c, h)
+                 \/ \E c \in GetClasses : AnsGetN(c)
+                 \/ \E t \in PostTags, o \in {"ok", "fail"} : AuthN(t, o)
+                 \/ \E t \in CallTags, w \in {"resp", "eof"} : EvN(t, w)
+FairSpec == Spec /\ WF_vars(TCloseN \/ DoneN)
+                 /\ WF_vars(ConnInitN \/ ConnSAN \/ ReaderN \/ ReaderFailN \/ ReaderEOFN)
+                 /\ WF_vars(ServerAnswers)
 
 -----------------------------------------------------------------------------
 (* the properties on the model                                                *)
 TypeOK ==
-  /\ conn \in {"none", "running", "ok", "err"} /\ cph \in {"-", "init", "sa", "inited", "closing", "done"}
+  /\ conn \in {"none", "running", "ok", "err"} /\ cph \in {"-", "init", "sa", "sa2", "inited", "closing", "done"}
   /\ sid \in {"", "A", "B"} /\ fail \in {"", "gone", "fatal", "rej"}
   /\ \A t \in Tags : rq[t].st \in {"none", "open", "auth", "done"} /\ rq[t].att \in 0..2
   /\ reg \subseteq CallTags /\ \A t \in CallTags : ret[t] \in Results \cup {""}
